@@ -867,7 +867,7 @@ fn pre(ctx: &Ctx) {
 pub fn property() -> Property {
     Property {
         id: "C16",
-        rule: "skeletons: three container versions with the Havok payload at a random offset (every 16th 32-bit-offset container: beyond 64 KiB); tag file written by the harness: file info, generated type table (the needed classes with their members in random positions among extra members of every scalar / array / tuple kind, parent types, unused extra types), root container with several named variants (the animation container at a random position), animation container, 1..2 skeletons (the first is asserted), 1..40 bones with forest hierarchy (-1 roots), names up to 130 bytes, 12-float poses with arbitrary bit patterns, string back-references on / off, non-minimal packed integers. pbd: 1..12 body ids, parent links forming a forest, child / sibling links, item and link tables independently permuted, 0..6 bones each with out-of-line names and 4x3 matrices; queries over all ordered pairs (asserted when the start node has a sibling link and the target is a proper ancestor; same id -> None). cmp: 0x2a800 prefix + 0..40 rows of 14 floats (arbitrary bit patterns, zeros and ones common, whole rows of +0.0 / -0.0) (+ partial trailing row). tera: arbitrary plate size on read (position = plate_size * (x + 0.5), relative tolerance 1e-6; file names NNNN.mdl), 128-grid positions on write decoded by an own reader and parsed back. lgb: empty layer groups with any ids and ASCII name: own encoding -> parse, library write = own encoding byte for byte (incl. the checked-in empty_planlive.lgb), write -> read. Non-trivial: skeleton with >= 3 bones and >= 1 extra member or type; pbd with an asserted query and a chain of length >= 2; >= 2 rows / plates; non-empty name. Distinct by hash of the file.",
+        rule: "[round 9: pose components zero / -0 / 1 as common as arbitrary patterns, one group of four in five zero as a whole or the identity rotation] skeletons: three container versions with the Havok payload at a random offset (every 16th 32-bit-offset container: beyond 64 KiB); tag file written by the harness: file info, generated type table (the needed classes with their members in random positions among extra members of every scalar / array / tuple kind, parent types, unused extra types), root container with several named variants (the animation container at a random position), animation container, 1..2 skeletons (the first is asserted), 1..40 bones with forest hierarchy (-1 roots), names up to 130 bytes, 12-float poses with arbitrary bit patterns, string back-references on / off, non-minimal packed integers. pbd: 1..12 body ids, parent links forming a forest, child / sibling links, item and link tables independently permuted, 0..6 bones each with out-of-line names and 4x3 matrices; queries over all ordered pairs (asserted when the start node has a sibling link and the target is a proper ancestor; same id -> None). cmp: 0x2a800 prefix + 0..40 rows of 14 floats (arbitrary bit patterns, zeros and ones common, whole rows of +0.0 / -0.0) (+ partial trailing row). tera: arbitrary plate size on read (position = plate_size * (x + 0.5), relative tolerance 1e-6; file names NNNN.mdl), 128-grid positions on write decoded by an own reader and parsed back. lgb: empty layer groups with any ids and ASCII name: own encoding -> parse, library write = own encoding byte for byte (incl. the checked-in empty_planlive.lgb), write -> read. Non-trivial: skeleton with >= 3 bones and >= 1 extra member or type; pbd with an asserted query and a chain of length >= 2; >= 2 rows / plates; non-empty name. Distinct by hash of the file.",
         assumptions: &["tag-file members the reader has no default for (REAL / STRING scalars, vector arrays) are always present; tuple members always absent; struct element types have at most one parent level with members (object classes: up to two)", "pbd queries whose start node has no sibling link, or whose target is not an ancestor, are not asserted"],
         pre: Some(pre),
         post: None,
